@@ -557,3 +557,157 @@ pub fn scenario_overrun(sseed: u64, _tier: Tier) -> Report {
         "script_head": script.iter().map(|v| v.iter().take(30).cloned().collect::<Vec<u8>>()).collect::<Vec<_>>(), "checks_finished": finished, "samples": samples.len()});
     rep
 }
+
+// ---------------------------------------------------------------------------------------
+// Engine "stress-rotation": round-robin selection from several threads at once.
+//
+// A wrapper over n resources of which a fixed subset is healthy / degraded for good (one round of
+// checks, then an interval of an hour) is asked for resources by 4-8 tasks on a multi-thread
+// runtime, both accessors interleaved. With a stable eligible set a rotation hands out its
+// members in strict turn however the callers interleave, so after any number of selections the
+// counts of two eligible resources differ by at most one (time-independent).
+pub fn stress_rotation(sseed: u64, per_task: u64) -> Report {
+    let mut rng = Prng::new(sseed);
+    let mut rep = Report::default();
+    let n = rng.range(2, 6) as usize;
+    // 0 healthy, 1 degraded, 2 unhealthy — at least one healthy
+    let mut kinds: Vec<u8> = (0..n).map(|_| *rng.pick(&[0u8, 0, 0, 1, 2])).collect();
+    kinds[rng.below(n as u64) as usize] = 0;
+    let tasks = *rng.pick(&[4usize, 8]);
+    let workers = *rng.pick(&[2usize, 4, 8]);
+    let rt = match tokio::runtime::Builder::new_multi_thread().worker_threads(workers).enable_time().build() {
+        Ok(rt) => rt,
+        Err(e) => {
+            rep.inconclusive = Some(format!("cannot build a runtime: {e}"));
+            return rep;
+        }
+    };
+    let k2 = kinds.clone();
+    let out: Result<(Vec<u64>, Vec<u64>), String> = rt.block_on(async move {
+        let kinds = Arc::new(k2);
+        let kc = kinds.clone();
+        let checker = move |r: &usize| {
+            let k = kc[*r];
+            async move {
+                match k {
+                    0 => HealthStatus::Healthy,
+                    1 => HealthStatus::Degraded,
+                    _ => HealthStatus::Unhealthy,
+                }
+            }
+        };
+        let mut b = HealthCheckWrapper::builder()
+            .with_checker(checker)
+            .with_interval(Duration::from_secs(3600))
+            .with_initial_delay(Duration::from_millis(1))
+            .with_timeout(Duration::from_secs(5))
+            .with_failure_threshold(1)
+            .with_success_threshold(1)
+            .with_selection_strategy(SelectionStrategy::RoundRobin);
+        for i in 0..n {
+            b = b.with_context(i, format!("res{i}"));
+        }
+        let wrapper = Arc::new(b.build());
+        wrapper.start().await;
+        // wait (bounded) until the one round of checks has been published
+        let t0 = std::time::Instant::now();
+        loop {
+            let mut all = true;
+            for i in 0..n {
+                let want = match kinds[i] {
+                    0 => HealthStatus::Healthy,
+                    1 => HealthStatus::Degraded,
+                    _ => HealthStatus::Unhealthy,
+                };
+                if wrapper.get_status(&format!("res{i}")).await != Some(want) {
+                    all = false;
+                }
+            }
+            if all {
+                break;
+            }
+            if t0.elapsed() > Duration::from_secs(20) {
+                return Err("the first round of checks was not published within 20 s".to_string());
+            }
+            tokio::time::sleep(Duration::from_millis(2)).await;
+        }
+        let mut hs = vec![];
+        for t in 0..tasks {
+            let w = wrapper.clone();
+            hs.push(tokio::spawn(async move {
+                let mut healthy = vec![0u64; n];
+                let mut usable = vec![0u64; n];
+                let mut none = 0u64;
+                for i in 0..per_task {
+                    if (i + t as u64) % 2 == 0 {
+                        match w.get_healthy().await {
+                            Some(r) => healthy[r] += 1,
+                            None => none += 1,
+                        }
+                    } else {
+                        match w.get_usable().await {
+                            Some(r) => usable[r] += 1,
+                            None => none += 1,
+                        }
+                    }
+                    if i % 64 == 0 {
+                        tokio::task::yield_now().await;
+                    }
+                }
+                (healthy, usable, none)
+            }));
+        }
+        let mut healthy = vec![0u64; n];
+        let mut usable = vec![0u64; n];
+        let mut none = 0u64;
+        for h in hs {
+            match h.await {
+                Ok((a, b, c)) => {
+                    for i in 0..n {
+                        healthy[i] += a[i];
+                        usable[i] += b[i];
+                    }
+                    none += c;
+                }
+                Err(e) => return Err(format!("a selecting task died: {e}")),
+            }
+        }
+        wrapper.stop().await;
+        if none > 0 {
+            return Err(format!("VIOLATION:{none} selections returned nothing although resources qualify"));
+        }
+        Ok((healthy, usable))
+    });
+    drop(rt);
+    match out {
+        Err(m) if m.starts_with("VIOLATION:") => rep.violate("C18:round-robin:threads:returned-none", m[10..].to_string()),
+        Err(m) => rep.inconclusive = Some(m),
+        Ok((healthy, usable)) => {
+            for (name, got, elig) in [
+                ("get_healthy", &healthy, (0..n).filter(|i| kinds[*i] == 0).collect::<Vec<_>>()),
+                ("get_usable", &usable, (0..n).filter(|i| kinds[*i] <= 1).collect::<Vec<_>>()),
+            ] {
+                for i in 0..n {
+                    if got[i] > 0 && !elig.contains(&i) {
+                        rep.violate(format!("C18:round-robin:threads:{name}-returned-ineligible"), format!("{name} returned res{i} {} times although it is published {}", got[i], NAMES[kinds[i] as usize]));
+                    }
+                }
+                let counts: Vec<u64> = elig.iter().map(|i| got[*i]).collect();
+                let (lo, hi) = (counts.iter().min().copied().unwrap_or(0), counts.iter().max().copied().unwrap_or(0));
+                rep.count("rotations_judged", 1);
+                rep.count("selections", counts.iter().sum::<u64>());
+                if hi - lo > 1 {
+                    rep.violate(
+                        "C18:round-robin:threads:uneven-rotation",
+                        format!("{tasks} tasks on {workers} workers, stable statuses {:?}: {name} visited the eligible resources {:?} {:?} times (a rotation over a stable set differs by at most one)", kinds, elig, counts),
+                    );
+                }
+            }
+        }
+    }
+    rep.bucket(format!("n={n} tasks={tasks} workers={workers}"));
+    rep.nontrivial = kinds.iter().filter(|k| **k == 0).count() >= 2 || kinds.iter().filter(|k| **k <= 1).count() >= 2;
+    rep.sig = crate::prng::mix(sseed, n as u64);
+    rep.case = json!({"engine": "stress-rotation", "kinds": kinds, "tasks": tasks, "workers": workers, "per_task": per_task});
+    rep
+}
